@@ -203,6 +203,8 @@ def run(ctx):
     from . import effects
     effects.check_property(ctx, "C15")    # R15.E: no operation on shared protocol state outside the reviewed table
     from . import C07, C01
+    C07.r4_plumbing(ctx)         # the relay sends to the destination decoded from the request, for the whole life of the association
+    C07.r3_atyp_tables(ctx)      # ... and the bytes that follow the destination in the same frame (the first datagrams) are not eaten by the destination decoder
     C01.r13_no_cancel_and_retry_of_framed_reads(ctx)   # a length prefix / datagram body read that is dropped half-way and retried desynchronises the datagram stream
     C07.r1_port_dependence(ctx)    # a domain-typed initial request is resolved through the same cache: the port is the requested one, not a cached one
     r1_prefix_agreement(ctx)
